@@ -25,6 +25,8 @@ impl<R: Rng> RngSampleExt for R {
 pub trait SampleUniform: Sized {
     spec fn valid_range(lo: Self, hi: Self) -> bool;
     spec fn uniform_draw(lo: Self, hi: Self, st: int) -> (Self, int);
+    // draws of a generator built with new_inclusive: a different law, no range facts assumed about it
+    spec fn uniform_draw_incl(lo: Self, hi: Self, st: int) -> (Self, int);
 }
 #[verifier::external_body]
 #[verifier::reject_recursive_types(T)]
@@ -38,14 +40,19 @@ impl core::fmt::Debug for UniformError {
 impl<T: SampleUniform> Uniform<T> {
     pub uninterp spec fn lo(&self) -> T;
     pub uninterp spec fn hi(&self) -> T;
+    pub uninterp spec fn incl(&self) -> bool;
     #[verifier::external_body]
     pub fn new(lo: T, hi: T) -> (r: Result<Uniform<T>, UniformError>)
         ensures r is Ok <==> T::valid_range(lo, hi),
-            r is Ok ==> r->Ok_0.lo() == lo && r->Ok_0.hi() == hi,
+            r is Ok ==> r->Ok_0.lo() == lo && r->Ok_0.hi() == hi && !r->Ok_0.incl(),
+    { unimplemented!() }
+    #[verifier::external_body]
+    pub fn new_inclusive(lo: T, hi: T) -> (r: Result<Uniform<T>, UniformError>)
+        ensures r is Ok ==> r->Ok_0.lo() == lo && r->Ok_0.hi() == hi && r->Ok_0.incl(),
     { unimplemented!() }
 }
 impl<T: SampleUniform> Distribution<T> for Uniform<T> {
-    open spec fn draw(&self, st: int) -> (T, int) { T::uniform_draw(self.lo(), self.hi(), st) }
+    open spec fn draw(&self, st: int) -> (T, int) { if self.incl() { T::uniform_draw_incl(self.lo(), self.hi(), st) } else { T::uniform_draw(self.lo(), self.hi(), st) } }
     #[verifier::external_body]
     fn sample<R: Rng>(&self, rng: &mut R) -> (r: T) { unimplemented!() }
 }
@@ -57,18 +64,24 @@ impl<T: SampleUniform> Copy for Uniform<T> {}
 pub uninterp spec fn uniform_f64_draw(lo: f64, hi: f64, st: int) -> (f64, int);
 pub uninterp spec fn uniform_usize_draw(lo: usize, hi: usize, st: int) -> (usize, int);
 pub uninterp spec fn uniform_u64_draw(lo: u64, hi: u64, st: int) -> (u64, int);
+pub uninterp spec fn uniform_f64_draw_incl(lo: f64, hi: f64, st: int) -> (f64, int);
+pub uninterp spec fn uniform_usize_draw_incl(lo: usize, hi: usize, st: int) -> (usize, int);
+pub uninterp spec fn uniform_u64_draw_incl(lo: u64, hi: u64, st: int) -> (u64, int);
 pub uninterp spec fn f64_range_ok(lo: f64, hi: f64) -> bool;
 impl SampleUniform for f64 {
     open spec fn valid_range(lo: f64, hi: f64) -> bool { f64_range_ok(lo, hi) }
     open spec fn uniform_draw(lo: f64, hi: f64, st: int) -> (f64, int) { uniform_f64_draw(lo, hi, st) }
+    open spec fn uniform_draw_incl(lo: f64, hi: f64, st: int) -> (f64, int) { uniform_f64_draw_incl(lo, hi, st) }
 }
 impl SampleUniform for usize {
     open spec fn valid_range(lo: usize, hi: usize) -> bool { lo < hi }
     open spec fn uniform_draw(lo: usize, hi: usize, st: int) -> (usize, int) { uniform_usize_draw(lo, hi, st) }
+    open spec fn uniform_draw_incl(lo: usize, hi: usize, st: int) -> (usize, int) { uniform_usize_draw_incl(lo, hi, st) }
 }
 impl SampleUniform for u64 {
     open spec fn valid_range(lo: u64, hi: u64) -> bool { lo < hi }
     open spec fn uniform_draw(lo: u64, hi: u64, st: int) -> (u64, int) { uniform_u64_draw(lo, hi, st) }
+    open spec fn uniform_draw_incl(lo: u64, hi: u64, st: int) -> (u64, int) { uniform_u64_draw_incl(lo, hi, st) }
 }
 pub mod vx_rand_ax {
     use vstd::prelude::*;
